@@ -1,3 +1,6 @@
 SPECIFICATION Spec
+CONSTANTS
+  MaxLen = 4
+  Alphabet = {0, 1, 2, 3, 13, 14, 17, 18, 19, 27, 29, 39, 40, 41, 43, 44, 45, 53, 55, 65, 66, 195, 252, 255}
 INVARIANT Theorems
 CHECK_DEADLOCK FALSE
